@@ -227,6 +227,7 @@ static void sched_point(void)
 static int mx_lock(void)
 {
         int self = cur;
+        if (lock_owner == self) { violation("C17: thread %d takes the lock it already holds (self-deadlock with a non-recursive mutex)", self); return 1; }
         T[self].want_lock = 1;
         T[self].site = 1;
         sched_point();
@@ -298,7 +299,8 @@ static cat_return_state ev_test(const struct cat_command *cmd, uint8_t *data, si
         (void)data; (void)data_size; (void)max;
         inside_point(5);
         delivered[(cmd - cmds) - 1]++;
-        return CAT_RETURN_STATE_DATA_OK;
+        /* the first producer's TEST events end with a release request (a no-op unless a command is held) */
+        return ((cmd - cmds) - 1 == 1) ? CAT_RETURN_STATE_HOLD_EXIT_OK : CAT_RETURN_STATE_DATA_OK;
 }
 static cat_return_state hold_run(const struct cat_command *cmd) { (void)cmd; inside_point(3); return CAT_RETURN_STATE_HOLD; }
 static cat_return_state plain_run(const struct cat_command *cmd) { (void)cmd; inside_point(4); return CAT_RETURN_STATE_OK; }
